@@ -49,3 +49,22 @@ for kind in ("udp", "tcp"):
                 f.write(f'  Kind = "{kind}"\n  KeepAlive = {ka}\n  Retries = 1\n  T = 4\n  CT = 40\n  NCallers = {nc}\n  NReq = {nreq}\n')
                 f.write('  Faults <- FaultsFull\n  ConnOuts = {"ok"}\n  MaxConnFail = 99\n  Offsets = {0}\n  Gaps = {0, 2}\n')
                 f.write("  Strict = TRUE\n  Horizon = 4000\n  Fx <- FxAll\n  Assume = TRUE\nINVARIANT CNoViolation\n")
+
+
+# simulation instances (GenProto.tla / MC_Gen.tla) and their conformance counterparts
+GEN = {"deep1": (1, 3, 4, "FaultsFull", "FALSE", "{0}", "{0, 1, 2, 5}"),       # callers, requests, retries, alphabet, assume, offsets, gaps
+       "conc": (3, 2, 2, "FaultsAssume", "TRUE", "{0, 1, 3, 4, 5}", "{0, 1, 2}")}
+for name, (nc, nreq, r, al, assume, offs, gaps) in GEN.items():
+    for kind in ("udp", "tcp"):
+        conn = '{"ok", "unreach"}' if kind == "udp" else '{"ok", "refused", "hang"}'
+        if assume == "TRUE":
+            conn = '{"ok"}'
+        for ka in ("TRUE", "FALSE"):
+            k = "ka" if ka == "TRUE" else "nka"
+            for mod, spec in (("Gen", "GSpec"), ("ConformG", "CSpec")):
+                with open(os.path.join(HERE, f"{mod}_{kind}_{k}_{name}.cfg"), "w") as f:
+                    f.write(f"SPECIFICATION {spec}\nCHECK_DEADLOCK FALSE\nCONSTANTS\n")
+                    f.write(f'  Kind = "{kind}"\n  KeepAlive = {ka}\n  Retries = {r}\n  T = 4\n  CT = {20 if mod == "Gen" else 40}\n  NCallers = {nc}\n  NReq = {nreq}\n')
+                    f.write(f'  Faults <- {al if mod == "Gen" else "FaultsFull"}\n  ConnOuts = {conn}\n  MaxConnFail = 2\n  Offsets = {offs}\n  Gaps = {gaps}\n')
+                    f.write(f"  Strict = TRUE\n  Horizon = 4000\n  Fx <- FxAll\n  Assume = {assume}\n")
+                    f.write("INVARIANT GNoViolation\n" if mod == "Gen" else "INVARIANT CNoViolation\n")
